@@ -103,6 +103,10 @@ func (c *config) UnmarshalXML(d *xml.Decoder, start xml.StartElement) error {
 	iter := xmlstream.NewIter(d)
 	for iter.Next() {
 		start, r := iter.Current()
+		// Skip children that are not elements (eg. whitespace).
+		if start == nil {
+			continue
+		}
 		switch start.Name.Local {
 		case "history":
 			for _, attr := range start.Attr {
